@@ -79,7 +79,8 @@ func TestVF_Observe(t *testing.T) {
 		rec.emit("reset", "id", vfStr(v, "id", ""))
 		res := vfObserve(v)
 		o := map[string]any{"ev": "obs", "kind": "obs", "id": vfStr(v, "id", ""), "out": res, "doc": v["doc"], "sys": v["sys"],
-			"lifecycle": vfStr(v, "lifecycle", "up"), "fwderr": vfBool(v, "fwderr", false)}
+			"lifecycle": vfStr(v, "lifecycle", "up"), "fwderr": vfBool(v, "fwderr", false),
+			"autoerr": vfBool(v, "autoerr", false)}
 		rec.raw(o)
 	}
 }
@@ -98,7 +99,7 @@ func vfObserve(v map[string]any) (res map[string]any) {
 	}
 	res["accepted"] = true
 	sys := vfMap(v, "sys")
-	st := vfObsState{fwd: vfBool(sys, "fwd", true), auto: vfBool(sys, "auto", true), fwdErr: vfBool(v, "fwderr", false)}
+	st := vfObsState{fwd: vfBool(sys, "fwd", true), auto: vfBool(sys, "auto", true), fwdErr: vfBool(v, "fwderr", false), autoEr: vfBool(v, "autoerr", false)}
 	reg := prometheus.NewPedanticRegistry()
 	_ = NewMetrics(metricslite.NewPrometheus(reg), "vf", time.Time{}, st, cfg.Interfaces)
 	ll := log.New(io.Discard, "", 0)
